@@ -296,6 +296,10 @@ mod numeric_formatting {
     }
 
     fn format_variant(v: Variant, fractional_digits: usize) -> Result<String, RuntimeError> {
+        // the formatting machinery of the standard library cannot handle more
+        if fractional_digits > u16::MAX as usize {
+            return Err(RuntimeError::IllegalFunctionCall);
+        }
         match v {
             Variant::VSingle(f) => Ok(if fractional_digits > 0 {
                 format!("{:.1$}", f, fractional_digits)
